@@ -78,6 +78,14 @@ def evaluate_db(engine, db, preds):
             res = get_evaluatable().create_from(target).evaluate()
             for k, v in res.items():
                 out["ground-call:" + str(k)] = v
+        # every predicate once more into a formula of its own, last predicate first: a shared formula carries
+        # the engine's table of earlier calls, so a direct call p(X) would hide what a later call THROUGH a
+        # parent rule sees of p
+        for name, n in reversed(preds):
+            target = engine.ground(db, Term(name, *([None] * n)), LogicFormula(), label=LogicFormula.LABEL_QUERY)
+            res = get_evaluatable().create_from(target).evaluate()
+            for k, v in res.items():
+                out["alone:" + str(k)] = v
         return ("ok", out)
     except Exception as exc:  # noqa
         return classify_exception(exc)
@@ -141,7 +149,7 @@ def check_history(bi, hist):
                 continue
             ref = progcheck.reference(prog)
             if ref["kind"] == "answer":
-                plain = lambda o: (o[0], {k: v for k, v in o[1].items() if not k.startswith("ground-call:")}) if o[0] == "ok" else o
+                plain = lambda o: (o[0], {k: v for k, v in o[1].items() if not k.startswith(("ground-call:", "alone:"))}) if o[0] == "ok" else o
                 sym, detail = progcheck.verdict(ref, plain(got))
                 if sym and not progcheck.verdict(ref, plain(fresh))[0]:
                     return None, ("child-differs-from-reference:" + sym, detail)
